@@ -20,6 +20,7 @@ Unspecified(raw) == LET d == Decode(raw, <<>>) IN
 RECURSIVE IsSubseqOf(_, _)
 IsSubseqOf(a, b) == IF a = <<>> THEN TRUE ELSE IF b = <<>> THEN FALSE
                     ELSE IF Head(a) = Head(b) THEN IsSubseqOf(Tail(a), Tail(b)) ELSE IsSubseqOf(a, Tail(b))
+Count(seq, x) == Cardinality({ i \in DOMAIN seq : seq[i] = x })
 St0 == [expected |-> <<>>, delivered |-> <<>>, optional |-> 0]
 On(s, e) ==
   CASE e.e = "dgram" ->
@@ -38,7 +39,11 @@ On(s, e) ==
     [] e.e = "end" ->
          LET ex == s.expected dl == s.delivered n == IF Len(ex) < Len(dl) THEN Len(ex) ELSE Len(dl) IN
          [st |-> s,
-          cl |-> IF s.optional > 0 THEN << <<"not_delivered_or_altered", IsSubseqOf(ex, dl)>>, <<"delivered_too_many", Len(dl) <= Len(ex) + s.optional>> >>
+          cl |-> IF Sc.mode = "burst" /\ s.optional = 0
+                 THEN \* several notifications in flight at once: each is delivered exactly once - in whatever order the callbacks finish
+                      << <<"not_delivered", \A i \in DOMAIN ex : Count(dl, ex[i]) >= Count(ex, ex[i])>>,
+                         <<"delivered_twice_or_foreign_or_malformed_delivered", Len(dl) <= Len(ex) /\ \A i \in DOMAIN dl : Count(dl, dl[i]) <= Count(ex, dl[i])>> >>
+                 ELSE IF s.optional > 0 THEN << <<"not_delivered_or_altered", IsSubseqOf(ex, dl)>>, <<"delivered_too_many", Len(dl) <= Len(ex) + s.optional>> >>
                  ELSE << <<"wrong_origin", \A i \in 1..n : dl[i].origin = ex[i].origin \/ dl[i].vbs # ex[i].vbs>>,
                          <<"wrong_bindings", \A i \in 1..n : dl[i].vbs = ex[i].vbs>>,
                          <<"not_delivered", Len(dl) >= Len(ex)>>,
